@@ -58,6 +58,13 @@ func Load(dir string, overlay map[string][]byte, full bool) (*Prog, error) {
 		mode = packages.LoadAllSyntax
 	}
 	env := append(os.Environ(), "GOFLAGS=-mod=mod", "GOPROXY=off", "GOSUMDB=off", "GOTOOLCHAIN=local", "GOWORK=off")
+	if _, err := os.Stat("/opt/veriftools/go1.26.8/bin/go"); err == nil {
+		// the repository needs go >= 1.25; the default go on PATH is older
+		if !strings.HasPrefix(os.Getenv("PATH"), "/opt/veriftools/go1.26.8/bin:") {
+			os.Setenv("PATH", "/opt/veriftools/go1.26.8/bin:"+os.Getenv("PATH"))
+		}
+		env = append(env, "PATH="+os.Getenv("PATH"))
+	}
 	cfg := &packages.Config{Mode: mode | packages.NeedModule, Dir: dir, Overlay: overlay, Env: env, Tests: false}
 	pkgs, err := packages.Load(cfg, "./...")
 	if err != nil {
